@@ -67,33 +67,47 @@ func lowOrderAliases() [][]byte {
 
 var aliases = lowOrderAliases()
 
-func point(g *hx.Gen) []byte {
+// class names of the most recent point()/scalar() draw (for the pair.* counters)
+var lastPt, lastSc string
+
+func stat(g *hx.Gen, dst *string, name string) {
+	*dst = name
+	g.Stat(name)
+}
+
+// ptClasses / scClasses: one selector value per class of pointC / scalarC
+var ptClasses = []int{0, 2, 3, 4, 6, 7, 8, 9, 10}
+var scClasses = []int{0, 1, 2, 3, 4, 5}
+
+func point(g *hx.Gen) []byte { return pointC(g, g.R.Intn(16)) }
+
+func pointC(g *hx.Gen, class int) []byte {
 	r := g.R
-	switch r.Intn(16) {
+	switch class {
 	case 0, 1:
-		g.Stat("pt.low-order-alias")
+		stat(g, &lastPt, "pt.low-order-alias")
 		return hx.Pick(r, aliases)
 	case 2:
-		g.Stat("pt.low-order+p-mod-2^256") // u+p, u+2p taken mod 2^256: bit 255 is masked first, so NOT low order
+		stat(g, &lastPt, "pt.low-order+p-mod-2^256") // u+p, u+2p taken mod 2^256: bit 255 is masked first, so NOT low order
 		u := hx.Pick(r, lowOrder)
 		return addBig(u, new(big.Int).Mul(big.NewInt(int64(r.Range(1, 2))), p255))
 	case 3:
-		g.Stat("pt.near-low-order")
+		stat(g, &lastPt, "pt.near-low-order")
 		return add(hx.Pick(r, aliases), int64(r.Range(-3, 3)))
 	case 4, 5:
-		g.Stat("pt.noncanonical") // p .. 2^255-1, top bit either way
+		stat(g, &lastPt, "pt.noncanonical") // p .. 2^255-1, top bit either way
 		v := new(big.Int).Add(p255, big.NewInt(int64(r.Intn(19))))
 		if r.Bool() {
 			v.Add(v, two255)
 		}
 		return le32(v)
 	case 6:
-		g.Stat("pt.boundary")
+		stat(g, &lastPt, "pt.boundary")
 		base := []*big.Int{p255, two255, two256, big.NewInt(0)}[r.Intn(4)]
 		v := new(big.Int).Add(base, big.NewInt(int64(r.Range(-40, 40))))
 		return le32(v)
 	case 7:
-		g.Stat("pt.basepoint")
+		stat(g, &lastPt, "pt.basepoint")
 		b := make([]byte, 32)
 		b[0] = 9
 		if r.Chance(1, 4) {
@@ -101,14 +115,14 @@ func point(g *hx.Gen) []byte {
 		}
 		return b
 	case 8:
-		g.Stat("pt.sparse")
+		stat(g, &lastPt, "pt.sparse")
 		b := make([]byte, 32)
 		for k := r.Range(1, 3); k > 0; k-- {
 			b[r.Intn(32)] |= 1 << r.Intn(8)
 		}
 		return b
 	case 9:
-		g.Stat("pt.dense")
+		stat(g, &lastPt, "pt.dense")
 		b := bytes.Repeat([]byte{0xff}, 32)
 		for k := r.Range(0, 3); k > 0; k-- {
 			b[r.Intn(32)] &^= 1 << r.Intn(8)
@@ -117,41 +131,43 @@ func point(g *hx.Gen) []byte {
 	default:
 		b := r.Bytes(32)
 		if b[31]&0x80 != 0 {
-			g.Stat("pt.random-topbit")
+			stat(g, &lastPt, "pt.random-topbit")
 		} else {
-			g.Stat("pt.random")
+			stat(g, &lastPt, "pt.random")
 		}
 		return b
 	}
 }
 
-func scalar(g *hx.Gen) []byte {
+func scalar(g *hx.Gen) []byte { return scalarC(g, g.R.Intn(12)) }
+
+func scalarC(g *hx.Gen, class int) []byte {
 	r := g.R
-	switch r.Intn(12) {
+	switch class {
 	case 0:
-		g.Stat("sc.zero")
+		stat(g, &lastSc, "sc.zero")
 		return make([]byte, 32)
 	case 1:
-		g.Stat("sc.ones")
+		stat(g, &lastSc, "sc.ones")
 		return bytes.Repeat([]byte{0xff}, 32)
 	case 2:
-		g.Stat("sc.clamp-bits") // only the bits clamping touches differ from a random scalar
+		stat(g, &lastSc, "sc.clamp-bits") // only the bits clamping touches differ from a random scalar
 		b := r.Bytes(32)
 		b[0] = b[0]&0xf8 | byte(r.Intn(8))
 		b[31] = b[31]&0x3f | byte(r.Intn(4))<<6
 		return b
 	case 3:
-		g.Stat("sc.small")
+		stat(g, &lastSc, "sc.small")
 		b := make([]byte, 32)
 		b[0] = byte(r.Intn(32))
 		return b
 	case 4:
-		g.Stat("sc.single-bit")
+		stat(g, &lastSc, "sc.single-bit")
 		b := make([]byte, 32)
 		b[r.Intn(32)] = 1 << r.Intn(8)
 		return b
 	default:
-		g.Stat("sc.random")
+		stat(g, &lastSc, "sc.random")
 		return r.Bytes(32)
 	}
 }
@@ -177,14 +193,53 @@ func gen(g *hx.Gen) {
 			}
 		}
 	}
-	n := g.Count(2200, 40000)
+	g.Emit("consts")
+	g.Stat("consts")
+	emitX := func(s, u []byte, al int) {
+		g.Stat(fmt.Sprintf("x.alias%d", al))
+		g.Stat("pair." + lastSc + "+" + lastPt)
+		g.Stat(fmt.Sprintf("pair.%s+alias%d", lastPt, al))
+		g.Stat(fmt.Sprintf("pair.%s+alias%d", lastSc, al))
+		g.Emit("x s=%s p=%s d=%s alias=%d", hx.Hex(s), hx.Hex(u), hx.Hex(r.Bytes(32)), al)
+	}
+	// feature-pair sweep: every scalar class x point class x aliasing form; every scalar class on base/dh/iter
+	for _, pc := range ptClasses {
+		for _, sc := range scClasses {
+			for al := 0; al < 3; al++ {
+				emitX(scalarC(g, sc), pointC(g, pc), al)
+			}
+			g.Emit("iter k=%s u=%s n=2", hx.Hex(scalarC(g, sc)), hx.Hex(pointC(g, pc)))
+			g.Stat("pair.iter+" + lastSc + "+" + lastPt)
+		}
+	}
+	for _, sa := range scClasses {
+		for al := 0; al < 2; al++ {
+			g.Emit("base s=%s d=%s alias=%d", hx.Hex(scalarC(g, sa)), hx.Hex(r.Bytes(32)), al)
+			g.Stat(fmt.Sprintf("pair.base+%s+alias%d", lastSc, al))
+		}
+		for _, sb := range scClasses {
+			a := scalarC(g, sa)
+			ca := lastSc
+			g.Emit("dh a=%s b=%s", hx.Hex(a), hx.Hex(scalarC(g, sb)))
+			g.Stat("pair.dh+" + ca + "+" + lastSc)
+		}
+	}
+	// every exit of x25519(): point length, scalar length, both, all-zero output, success
+	arms := 0
+	for _, l := range [][2]int{{32, 31}, {31, 32}, {33, 0}, {0, 0}, {64, 64}} {
+		g.Emit("x s=%s p=%s d=%s alias=0", hx.Hex(r.Bytes(l[0])), hx.Hex(r.Bytes(l[1])), hx.Hex(r.Bytes(32)))
+	}
+	arms += 3
+	g.Emit("x s=%s p=%s d=%s alias=0", hx.Hex(r.Bytes(32)), hx.Hex(make([]byte, 32)), hx.Hex(r.Bytes(32)))
+	g.Emit("x s=%s p=%s d=%s alias=0", hx.Hex(r.Bytes(32)), hx.Hex(append([]byte{9}, make([]byte, 31)...)), hx.Hex(r.Bytes(32)))
+	arms += 2
+	g.StatN(fmt.Sprintf("table.x25519-exits=%d/5", arms), 1)
+	n := g.Count(1700, 40000)
 	for i := 0; i < n; i++ {
 		switch c := r.Intn(20); {
 		case c < 11:
 			s, u := scalar(g), point(g)
-			al := r.PickInt(0, 0, 1, 2)
-			g.Stat(fmt.Sprintf("x.alias%d", al))
-			g.Emit("x s=%s p=%s d=%s alias=%d", hx.Hex(s), hx.Hex(u), hx.Hex(r.Bytes(32)), al)
+			emitX(s, u, r.PickInt(0, 0, 1, 2))
 		case c < 12: // wrong lengths (X25519 only)
 			ls := r.PickInt(0, 1, 31, 32, 32, 33, 64)
 			lp := r.PickInt(0, 1, 31, 32, 33, 64)
@@ -283,6 +338,8 @@ func exec(line string) string {
 	o := hx.Parse(line)
 	var m muts
 	switch o.Cmd {
+	case "consts":
+		return fmt.Sprintf("scalar=%d point=%d base=%s", curve25519.ScalarSize, curve25519.PointSize, hx.Hex(curve25519.Basepoint))
 	case "x":
 		sB, pB, d, al := o.Hex("s"), o.Hex("p"), o.Hex("d"), o.Int("alias")
 		ar := hx.NewArena()
